@@ -49,6 +49,8 @@ type IdP struct {
 	TokenStyle string
 	// UserinfoClaims: the userinfo answer also carries the user's name claims (most providers do)
 	UserinfoClaims bool
+	// NoExpiresIn: the token response leaves out the optional expires_in member
+	NoExpiresIn bool
 	// ClockAhead: the provider's clock runs that much ahead of the gateway's (iat/exp of ID tokens)
 	ClockAhead time.Duration
 
@@ -253,6 +255,9 @@ func (p *IdP) handle(r *http.Request, body []byte, tok string) (*http.Response, 
 		at := p.IssueAccessToken(u.Sub)
 		p.Tokens[at].Claims = u.Claims
 		out := map[string]any{"access_token": at, "token_type": "Bearer", "expires_in": 300}
+		if p.NoExpiresIn {
+			delete(out, "expires_in")
+		}
 		if f != "noidtoken" {
 			out["id_token"] = p.idToken(u, f)
 		}
